@@ -60,7 +60,8 @@ def run_tlc(module: str, cfg: str, workdir: Path, tag: str, *, env=None, workers
     workers = workers or NCPU
     if workers == 1:
         # judge processes: many run side by side, keep each JVM light
-        cmd = ["java", "-XX:+UseSerialGC", f"-Xmx{heap}", "-Xms256m", "-XX:TieredStopAtLevel=1"]
+        cmd = ["java", "-XX:+UseSerialGC", f"-Xmx{heap}", "-Xms256m", "-Xss64m",
+               "-XX:TieredStopAtLevel=1"]
     else:
         cmd = ["java", "-XX:+UseParallelGC", f"-Xmx{heap}"]
         if gc_threads:
